@@ -10,6 +10,7 @@ import Fx.Lemmas.Fuel
 import Fx.Lemmas.Roundtrip
 import Fx.Lemmas.Selects
 import Fx.Lemmas.Sound
+import Fx.Lemmas.Limits
 namespace Fx.C05
 open Fx
 
@@ -93,6 +94,41 @@ theorem C05_accepted_is_well_typed (a : Ast) (m : Module) (hs : Supported a = tr
     (h : evalImpl a m.plans fuel n c = .ok v c') :
     ∃ x, hasTypeNamed a n x = true ∧ v = reprNamed a n c.off x ∧ c'.off = c.off + x.enc.length :=
   decode_sound hs hg n hn fuel c v c' h
+
+
+/-- **C05 (what a declared maximum does, for ALL plans, inputs and budgets).**  `p.eraseMax` is the same module with every
+    `Some(max)` handed to `read_variable_bytes` / `read_string` / `read_variable_array` replaced by `None`.  On every input the
+    decoder with the maxima either behaves exactly like the one without them — same value, same cursor, same error, same
+    allocation log — or returns `Err(Error::InvalidLength)`.  A maximum cannot change a value, move the cursor or produce
+    another error kind (Lemmas/Limits: a simulation over the five evaluators and the array loop). -/
+theorem C05_limits_only_reject (a : Ast) (p : Plans) (fuel : Nat) (name : String) (c : Cur) :
+    evalImpl a p fuel name c = evalImpl a p.eraseMax fuel name c ∨ ∃ l, evalImpl a p fuel name c = .err .invalidLength l :=
+  limits_only_reject a p fuel name c
+
+/-- **C05 (the error kind, at specification level).**  For every supported specification and every declared type: an input on
+    which the decoder *without* the maxima would return `Ok(v)`, where `v` is not the documented value of any XDR value within
+    the declared maxima (an opaque, string or array anywhere inside it is longer than the specification allows), is rejected
+    by the generated decoder, and the rejection is `Err(Error::InvalidLength)`.  (`C05_limits_only_reject` says the outcome is
+    the unbounded one or `InvalidLength`; `C05_accepted_is_well_typed` excludes the unbounded one.) -/
+theorem C05_over_max_is_invalid_length (a : Ast) (m : Module) (hs : Supported a = true) (hg : generateModule a = .ok m)
+    (n : String) (hn : declared a n = true) (fuel : Nat) (c : Cur) (v : Val) (c' : Cur)
+    (hun : evalImpl a m.plans.eraseMax fuel n c = .ok v c')
+    (hover : ¬ ∃ x, hasTypeNamed a n x = true ∧ v = reprNamed a n c.off x) :
+    ∃ l, evalImpl a m.plans fuel n c = .err .invalidLength l := by
+  rcases limits_only_reject a m.plans fuel n c with heq | hl
+  · rw [hun] at heq
+    obtain ⟨x, hx, hv, _⟩ := decode_sound hs hg n hn fuel c v c' heq
+    exact absurd ⟨x, hx, hv⟩ hover
+  · exact hl
+
+/-- an instance by evaluation (a test): `struct s { opaque o<2>; }` on a 3-byte payload — `InvalidLength` with the maximum,
+    the 3-byte value without it -/
+example :
+    let p : Plans := ⟨[⟨"s", true, .struct [.plain "o" (.varBytes (some 2))]⟩], []⟩
+    (match evalImpl ⟨[], [], []⟩ p 9 "s" ⟨0, be32 3 ++ [1, 2, 3, 0], []⟩ with
+     | .err .invalidLength _ => true | _ => false) = true ∧
+    (match evalImpl ⟨[], [], []⟩ p.eraseMax 9 "s" ⟨0, be32 3 ++ [1, 2, 3, 0], []⟩ with
+     | .ok (.struct "s" _ (.cons (.bytes 4 [1, 2, 3]) .nil)) c => c.off == 8 | _ => false) = true := by decide
 
 /-- the reference's reading of a bounded position: at most `max` items (here for an opaque; strings and arrays alike) -/
 example (a : Ast) : varHasType a (some 3) .opaque (.varOpaque [1, 2, 3]) = true ∧ varHasType a (some 3) .opaque (.varOpaque [1, 2, 3, 4]) = false := by
